@@ -139,7 +139,7 @@ void ret_blob(vs_call *c, const void *p, size_t len) {
 /* --------------------------------------------------------- UBSan reporting */
 
 #define VS_MAX_UB 6
-static char ub_msgs[VS_MAX_UB][160];
+static char ub_msgs[VS_MAX_UB][200];
 static int ub_n;
 
 __attribute__((weak)) void __ubsan_get_current_report_data(const char **kind, const char **msg,
@@ -171,16 +171,46 @@ static void __attribute__((noinline)) scribble(uint8_t v) {
 	__asm__ volatile("" ::: "memory");
 }
 
+/* Handler-chain invariant (C19: "the handler chain is restored to what it was before the block"; C08: "the library
+ * remains usable afterwards"): when a call returns normally, ctx->last must be what it was when the call started -
+ * the enclosing protected block, or, for an unprotected call, the previous value / the context's own error record
+ * that RLC_THROW installs outside any block. Anything else is a pointer into a dead stack frame (a return / goto out
+ * of a protected block in the callee): the next error raised would longjmp into it. Reported through the same
+ * channel as sanitizer findings, then repaired so that the runner goes on. */
+static void chain_broken(const char *how) {
+	if (ub_n < VS_MAX_UB) {
+		snprintf(ub_msgs[ub_n], sizeof ub_msgs[ub_n],
+			"handler-chain|relic_err.h:0|ctx->last not restored after the call (%s): return/goto out of a protected block?", how);
+		ub_n++;
+	}
+}
+
 static void __attribute__((noinline)) do_call(vs_fn fn, vs_call *c, int unprot, volatile int *caught,
 		volatile err_t *ecode) {
 	err_t e = 0;
 	*caught = 0;
 	if (unprot) {
+#ifdef CHECK
+		ctx_t *ctx = core_get();
+		sts_t *before = ctx->last;
 		fn(c);
+		if (ctx->last != before && ctx->last != &ctx->error) {
+			chain_broken("unprotected call");
+			ctx->last = before;
+		}
+#else
+		fn(c);
+#endif
 		return;
 	}
 	RLC_TRY {
 		fn(c);
+#ifdef CHECK
+		if (core_get()->last != &_this) {
+			chain_broken("call inside a protected block");
+			core_get()->last = &_this;
+		}
+#endif
 	} RLC_CATCH(e) {
 		*caught = 1;
 		*ecode = e;
